@@ -127,4 +127,36 @@ theorem gotOf_append (got : List (Nat × Nat)) (i j v : Nat) :
 
 theorem gotOf_nil (i : Nat) : gotOf [] i = [] := rfl
 
+/-- Σ_{i<n} f i (for the termination measures of the indexed systems) -/
+def sumTo (f : Nat → Nat) : Nat → Nat
+  | 0 => 0
+  | n + 1 => sumTo f n + f n
+
+theorem sumTo_congr (f g : Nat → Nat) : ∀ n, (∀ i, i < n → f i = g i) → sumTo f n = sumTo g n
+  | 0, _ => rfl
+  | n + 1, h => by
+    simp only [sumTo]
+    rw [sumTo_congr f g n (fun i hi => h i (by omega)), h n (by omega)]
+
+theorem sumTo_upd_ge {α : Type} (w : α → Nat) (f : Nat → α) (i n : Nat) (x : α) (h : n ≤ i) :
+    sumTo (fun j => w (upd f i x j)) n = sumTo (fun j => w (f j)) n := by
+  apply sumTo_congr
+  intro j hj
+  simp [upd, show j ≠ i by omega]
+
+theorem sumTo_upd_lt {α : Type} (w : α → Nat) (f : Nat → α) (i : Nat) (x : α) :
+    ∀ n, i < n →
+      sumTo (fun j => w (upd f i x j)) n + w (f i) = sumTo (fun j => w (f j)) n + w x
+  | 0, h => by omega
+  | n + 1, h => by
+    simp only [sumTo]
+    by_cases hin : i = n
+    · subst hin
+      rw [sumTo_upd_ge w f i i x (Nat.le_refl i)]
+      simp only [upd_same]
+      omega
+    · have ih := sumTo_upd_lt w f i x n (by omega)
+      simp only [upd_other f i n x (fun h => hin h.symm)]
+      omega
+
 end Goderive.K
